@@ -33,6 +33,36 @@ fn canon_val(v: &V) -> String {
     }
 }
 
+/// canonical name of a column type — same spelling as `DataType.canon` in Model/BinTypes.lean
+fn type_canon(t: &vibesql_types::DataType) -> String {
+    use vibesql_types::DataType as D;
+    match t {
+        D::Integer => "integer".into(),
+        D::Smallint => "smallint".into(),
+        D::Bigint => "bigint".into(),
+        D::Unsigned => "unsigned".into(),
+        D::Numeric { precision, scale } => format!("numeric:{}:{}", precision, scale),
+        D::Decimal { precision, scale } => format!("decimal:{}:{}", precision, scale),
+        D::Float { precision } => format!("float:{}", precision),
+        D::Real => "real".into(),
+        D::DoublePrecision => "double".into(),
+        D::Character { length } => format!("char:{}", length),
+        D::Varchar { max_length: None } => "varchar:none".into(),
+        D::Varchar { max_length: Some(n) } => format!("varchar:{}", n),
+        D::CharacterLargeObject => "clob".into(),
+        D::Name => "name".into(),
+        D::Boolean => "boolean".into(),
+        D::Date => "date".into(),
+        D::Time { with_timezone } => format!("time:{}", *with_timezone as u8),
+        D::Timestamp { with_timezone } => format!("timestamp:{}", *with_timezone as u8),
+        D::Interval { .. } => "interval".into(),
+        D::BinaryLargeObject => "blob".into(),
+        D::Bit { .. } => "bit".into(),
+        D::UserDefined { .. } => "userdefined".into(),
+        D::Null => "null".into(),
+    }
+}
+
 fn digest(db: &Database) -> String {
     let mut names = db.catalog.list_tables();
     names.sort();
@@ -40,7 +70,7 @@ fn digest(db: &Database) -> String {
     for n in names {
         if let Some(t) = db.get_table(&n) {
             let rows: Vec<String> = t.scan().iter().map(|r| r.values.iter().map(canon_val).collect::<Vec<_>>().join(" ")).collect();
-            out.push(format!("{}|{}|{}", n.to_uppercase(), t.schema.columns.iter().map(|c| format!("{}:{}", c.name.to_uppercase(), c.nullable as u8)).collect::<Vec<_>>().join(","), rows.join(";")));
+            out.push(format!("{}|{}|{}", n.to_uppercase(), t.schema.columns.iter().map(|c| format!("{}:{}:{}", c.name.to_uppercase(), c.nullable as u8, type_canon(&c.data_type))).collect::<Vec<_>>().join(","), rows.join(";")));
         }
     }
     let mut idx: Vec<String> = db
@@ -197,7 +227,18 @@ fn model_digest(reply: &Sx) -> Option<String> {
     for t in sect("tables")? {
         let t = t.as_list()?;
         let name = s(&t[0])?;
-        let cols: Option<Vec<String>> = t[1..].iter().map(|c| c.as_list().and_then(|c| Some(format!("{}:{}", s(&c[0])?, c[2].as_atom()?)))).collect();
+        let cols: Option<Vec<String>> = t[1..]
+            .iter()
+            .map(|c| {
+                c.as_list().and_then(|c| {
+                    let ty = c.get(3)?.as_atom()?;
+                    if ty == "?" {
+                        return None; // non-ASCII type text: Unicode upper-casing decides, not modelled
+                    }
+                    Some(format!("{}:{}:{}", s(&c[0])?, c[2].as_atom()?, ty))
+                })
+            })
+            .collect();
         tabs.push((name, cols?.join(",")));
     }
     let mut out = vec![];
@@ -292,6 +333,29 @@ fn binary_case(cx: &mut Ctx, rep: &mut Report, kind: &str, bytes: &[u8], origin:
     if let Some(l) = ledger {
         if l > bytes.len() as u64 {
             rep.fail(FailKind::ModelDiff, None, "model ledger exceeds the file size (theorem C20_load_total_consumes_prefix_alloc_bounded contradicted by the driver)", &replay());
+        }
+    }
+    // the model's parse_data_type verdict on every column type text of the (byte-level readable) file
+    let col_types: Vec<String> = msx
+        .as_ref()
+        .and_then(|s| s.as_list())
+        .and_then(|l| l.iter().filter_map(|x| x.as_list()).find(|x| x.first().and_then(|a| a.as_atom()) == Some("tables")))
+        .map(|ts| ts[1..].iter().filter_map(|t| t.as_list()).flat_map(|t| t[1..].iter().filter_map(|c| c.as_list().and_then(|c| c.get(3)).and_then(|a| a.as_atom()).map(|a| a.to_string())).collect::<Vec<_>>()).collect())
+        .unwrap_or_default();
+    let model_type_rejected = head == "ok" && col_types.iter().any(|t| t == "none");
+    let model_types_known = !col_types.iter().any(|t| t == "?");
+    if model_type_rejected {
+        rep.count("binary_model_rejects_type_text");
+        match &out {
+            Outcome::Ok(_) => rep.fail(FailKind::ModelDiff, None, "load_binary accepts a column type text the model's parse_data_type rejects", &replay()),
+            _ => {}
+        }
+        return;
+    }
+    if let (Outcome::Err(e), "ok", true) = (&out, head.as_str(), model_types_known) {
+        if e.contains("Unsupported data type") {
+            rep.fail(FailKind::ModelDiff, None, "load_binary rejects a column type text the model's parse_data_type accepts", &replay());
+            return;
         }
     }
     match (&out, head.as_str()) {
@@ -520,7 +584,7 @@ fn main() {
                     }
                     let mut targets: Vec<(String, usize)> = vec![];
                     for (k, off, len) in &fields {
-                        if matches!(k.as_str(), "tag" | "len" | "count" | "flag" | "version" | "magic") {
+                        if matches!(k.as_str(), "tag" | "len" | "typelen" | "count" | "flag" | "version" | "magic") {
                             targets.push((k.clone(), *off));
                             if *len > 1 {
                                 targets.push((k.clone(), off + len - 1));
@@ -587,6 +651,221 @@ fn main() {
             }
         }
         let _ = di;
+    }
+
+    // ---- column type texts: every persistable parameterised type, structure-aware corruption -------
+    // Fixture A: one column per type shape `format_data_type` can write and `parse_data_type` re-reads
+    // (enumerated from vibesql_types::DataType / persistence/save.rs); fixture B: the shapes it writes but
+    // cannot re-read (INTERVAL qualifiers, BIT, user-defined, CLOB/BLOB/NULL) and the lossy ones.
+    {
+        use vibesql_types::{DataType as D, IntervalField as IF};
+        let fixture = |name: &str, types: Vec<D>, with_rows: bool, r: &mut Rng| -> Option<Vec<u8>> {
+            let name = &name.to_uppercase();
+            let mut db = Database::new();
+            let cols: Vec<vibesql_catalog::ColumnSchema> = types
+                .iter()
+                .enumerate()
+                .map(|(i, t)| vibesql_catalog::ColumnSchema { name: format!("K{}", i), data_type: t.clone(), nullable: i % 3 != 0, default_value: None })
+                .collect();
+            db.create_table(vibesql_catalog::TableSchema::new(name.to_string(), cols.clone())).ok()?;
+            if with_rows {
+                for _ in 0..2 {
+                    let vals: Vec<V> = cols.iter().map(|c| gen_value(r, &c.data_type, c.nullable)).collect();
+                    let _ = std::panic::catch_unwind(std::panic::AssertUnwindSafe(|| db.insert_row(name, vibesql_storage::Row::new(vals))));
+                }
+            }
+            let p = cx_dir_tmp(name);
+            db.save_binary(&p).ok()?;
+            std::fs::read(&p).ok()
+        };
+        fn cx_dir_tmp(name: &str) -> std::path::PathBuf {
+            std::path::PathBuf::from(std::env::var("VERIF_DIR").unwrap_or_else(|_| "/verif".into())).join(".run").join(format!("c20-fixture-{}-{}.vbsql", name, std::process::id()))
+        }
+        let types_a = vec![
+            D::Integer,
+            D::Numeric { precision: 10, scale: 2 },
+            D::Decimal { precision: 8, scale: 3 },
+            D::Numeric { precision: 38, scale: 0 },
+            D::Varchar { max_length: Some(40) },
+            D::Varchar { max_length: None },
+            D::Character { length: 6 },
+            D::Float { precision: 24 },
+            D::Float { precision: 53 },
+            D::Timestamp { with_timezone: true },
+            D::Timestamp { with_timezone: false },
+            D::Time { with_timezone: false },
+            D::Date,
+            D::DoublePrecision,
+            D::Unsigned,
+            D::Smallint,
+            D::Bigint,
+            D::Real,
+            D::Boolean,
+        ];
+        let types_b = vec![
+            D::Integer,
+            D::Interval { start_field: IF::Year, end_field: None },
+            D::Interval { start_field: IF::Year, end_field: Some(IF::Month) },
+            D::Interval { start_field: IF::Day, end_field: Some(IF::Second) },
+            D::Time { with_timezone: true },
+            D::Name,
+            D::Bit { length: Some(4) },
+            D::Bit { length: None },
+            D::UserDefined { type_name: "TINYINT".into() },
+            D::UserDefined { type_name: "my type(1,2)".into() },
+            D::CharacterLargeObject,
+            D::BinaryLargeObject,
+            D::Null,
+        ];
+        let dict: Vec<&[u8]> = vec![
+            b"NUMERIC(10  2)", b"NUMERIC(10)", b"NUMERIC(", b"NUMERIC()", b"NUMERIC(,)", b"NUMERIC(,2)", b"NUMERIC(10,)", b"NUMERIC(10,2,3)",
+            b"NUMERIC(10, 2", b"NUMERIC(999, 2)", b"NUMERIC(-1, 2)", b"NUMERIC(+1,+2)", b"NUMERIC", b"NUMERIC )", b"numeric(10, 2)", b"NUMERIC(NUMERIC(7, 1))",
+            b"NUMERIC(\t5\t,\n6\r)", b"DECIMAL(,)", b"DECIMAL(", b"DECIMAL(5)", b"DECIMAL()", b"DECIMAL", b"DECIMAL(5 1)", b"DECIMAL(5;1)", b"decimal(255,256)",
+            b"VARCHAR(", b"VARCHAR()", b"VARCHAR(x)", b"VARCHAR(-1)", b"VARCHAR(18446744073709551615)", b"VARCHAR(18446744073709551616)", b"VARCHAR(4", b"VARCHARX",
+            b"VARCHAR (4)", b"VARCHAR(4))))", b"VARCHAR(+4)", b"VARCHAR( 4)", b"CHAR(x)", b"CHAR(", b"CHAR()", b"CHAR", b"CHAR(0)", b"CHAR(99999999999999999999999)",
+            b"CHARACTER(3)", b"CHAR(CHAR(3))", b"FLOAT(", b"FLOAT()", b"FLOAT(256)", b"FLOAT(255)", b"FLOAT(x)", b"FLOAT", b"FLOAT(2,3)", b"TIMESTAMP(", b"TIMESTAMP(6)",
+            b"TIMESTAMP WITH", b"TIMESTAMP WITH TIME ZONE ", b"TIMESTAMP  WITH TIME ZONE", b"DATETIME", b"TIME(", b"TIME(3)", b"TIME WITH TIME ZONE", b"INTERVAL YEAR TO",
+            b"INTERVAL YEAR TO MONTH", b"INTERVAL Year", b"INTERVAL", b"INTERVAL ", b"BIT(", b"BIT(4)", b"BIT", b"", b" ", b"(", b")", b",", b"INTEGER ", b" INTEGER", b"INT",
+            b"DOUBLE", b"DOUBLE  PRECISION", b"BIGINT UNSIGNED ", b"NULL", b"CLOB", b"BLOB", b"mytype", b"\x00", b"\xc3\xbf", b"numeric(\xc4\xb1)", b"VARCHAR(\xef\xbc\x94)",
+        ];
+        let subs: [u8; 9] = [b' ', b',', b'(', b')', b'0', b'9', b'A', b'x', 0x7f];
+        let splice = |bytes: &[u8], lo: usize, off: usize, len: usize, new: &[u8], prefix: Option<u32>| -> Vec<u8> {
+            let mut b = bytes[..lo].to_vec();
+            b.extend_from_slice(&le32(prefix.unwrap_or(new.len() as u32)));
+            b.extend_from_slice(new);
+            b.extend_from_slice(&bytes[off + len..]);
+            b
+        };
+        // fixtures: (description, bytes, class) — class 0: parameterised re-readable type (full streams),
+        // 1: plain re-readable type, 2: written-but-not-re-readable / lossy type, 3: all of A in one table
+        let quick = args.quick();
+        let mut fixtures: Vec<(String, Vec<u8>, u8)> = vec![];
+        match fixture("FXA", types_a.clone(), true, &mut rng) {
+            Some(b) => fixtures.push(("fixture A: one table with every re-readable type".into(), b, 3)),
+            None => rep.fail(FailKind::Oracle, None, "cannot build the column-type fixture through the storage API", "create_table / save_binary failed"),
+        }
+        for (i, t) in types_a.iter().enumerate().skip(1) {
+            let param = matches!(t, D::Numeric { .. } | D::Decimal { .. } | D::Varchar { max_length: Some(_) } | D::Character { .. } | D::Float { .. });
+            if let Some(b) = fixture(&format!("A{}", i), vec![t.clone()], false, &mut rng) {
+                fixtures.push((format!("single-column table of type {:?}", t), b, if param { 0 } else { 1 }));
+            }
+            let _ = std::fs::remove_file(cx_dir_tmp(&format!("A{}", i)));
+        }
+        for (i, t) in types_b.iter().enumerate().skip(1) {
+            if let Some(b) = fixture(&format!("B{}", i), vec![t.clone()], false, &mut rng) {
+                fixtures.push((format!("single-column table of type {:?} (not re-readable / lossy)", t), b, 2));
+            }
+            let _ = std::fs::remove_file(cx_dir_tmp(&format!("B{}", i)));
+        }
+        let _ = std::fs::remove_file(cx_dir_tmp("FXA"));
+        rep.add("type_fixture_files", fixtures.len() as u64);
+        let mut dict_runs = 0;
+        for (what, bytes, class) in &fixtures {
+            binary_case(&mut cx, &mut rep, "valid", bytes, what);
+            let lay = cx.m.ask(&format!("layout {}", hex(bytes)));
+            let fields: Vec<(String, usize, usize)> = Sx::parse(&lay)
+                .and_then(|s| s.as_list().map(|l| l.to_vec()))
+                .unwrap_or_default()
+                .iter()
+                .filter_map(|x| {
+                    let l = x.as_list()?;
+                    Some((l[0].as_atom()?.to_string(), l[1].as_atom()?.parse().ok()?, l[2].as_atom()?.parse().ok()?))
+                })
+                .collect();
+            // (typelen offset, type offset, type length)
+            let mut tys: Vec<(usize, usize, usize)> = vec![];
+            for w in fields.windows(2) {
+                if w[0].0 == "typelen" && w[1].0 == "type" {
+                    tys.push((w[0].1, w[1].1, w[1].2));
+                }
+            }
+            rep.add("type_text_fields_located", tys.len() as u64);
+            if tys.is_empty() {
+                rep.fail(FailKind::ModelDiff, None, "the model's layout finds no column type text in a fixture file", &format!("{}\nfile: {}\nmodel: {}", what, hex(bytes), lay.chars().take(300).collect::<String>()));
+            }
+            if *class == 3 {
+                // the multi-column file: the dictionary on its NUMERIC(10, 2) column only (context: other columns follow)
+                tys = tys.into_iter().skip(1).take(1).collect();
+            }
+            for (lo, off, len) in &tys {
+                let text = String::from_utf8_lossy(&bytes[*off..*off + *len]).to_string();
+                let origin = |m: String| format!("{}\ncolumn type text {:?} at byte {}: {}", what, text, off, m);
+                if *class != 3 {
+                    // (a) every byte of the type text × the ASCII set, length kept
+                    //     (quick: the full set on parameterised types, a rotating third of it elsewhere)
+                    for i in 0..*len {
+                        for (k, s) in subs.iter().enumerate() {
+                            if bytes[off + i] == *s || (quick && *class != 0 && (k + i) % 3 != 0) {
+                                continue;
+                            }
+                            let mut b = bytes.clone();
+                            b[off + i] = *s;
+                            binary_case(&mut cx, &mut rep, "type_subst", &b, &origin(format!("byte {} -> {:02x}", i, s)));
+                        }
+                    }
+                    // (b) delete / insert one byte, length prefix fixed up
+                    for i in 0..*len {
+                        let mut t = bytes[*off..*off + *len].to_vec();
+                        t.remove(i);
+                        binary_case(&mut cx, &mut rep, "type_delete", &splice(bytes, *lo, *off, *len, &t, None), &origin(format!("byte {} deleted", i)));
+                    }
+                    for i in 0..=*len {
+                        for k in 0..(if quick && *class != 0 { 1 } else if quick { 2 } else { subs.len() }) {
+                            let s = subs[(i + k * 4) % subs.len()];
+                            let mut t = bytes[*off..*off + *len].to_vec();
+                            t.insert(i, s);
+                            binary_case(&mut cx, &mut rep, "type_insert", &splice(bytes, *lo, *off, *len, &t, None), &origin(format!("{:02x} inserted at {}", s, i)));
+                        }
+                    }
+                    // (c) the length prefix alone
+                    //     (parameterised types: every value 0..=len+2, so the text is cut at every position)
+                    let deltas: Vec<i64> = if *class == 0 || !quick { (-(*len as i64)..=2).chain([*len as i64]).collect() } else { vec![-2, -1, 1, 2, -(*len as i64), *len as i64] };
+                    for d in deltas {
+                        let nl = (*len as i64 + d).max(0) as u32;
+                        if nl as usize == *len {
+                            continue;
+                        }
+                        let b = splice(bytes, *lo, *off, *len, &bytes[*off..*off + *len], Some(nl));
+                        binary_case(&mut cx, &mut rep, "type_lenprefix", &b, &origin(format!("length prefix {} -> {}", len, nl)));
+                    }
+                }
+                // (d) near-miss dictionary: the outcome depends on the replacement, not on the replaced type,
+                //     so quick runs it on the multi-column file and on the first single-column file only
+                if *class == 3 || dict_runs < 2 || !quick {
+                    dict_runs += 1;
+                    for w in dict.iter() {
+                        binary_case(&mut cx, &mut rep, "type_dictionary", &splice(bytes, *lo, *off, *len, w, None), &origin(format!("replaced by {:?}", String::from_utf8_lossy(w))));
+                    }
+                }
+            }
+        }
+        // the same dictionary through the JSON and SQL-dump loaders (their own type parsers), oracle only
+        {
+            let mut db = Db::new();
+            db.keep_log = false;
+            db.exec("CREATE TABLE JT (A INTEGER, N NUMERIC(10,2), S VARCHAR(40), C CHAR(6), F FLOAT(24), TS TIMESTAMP WITH TIME ZONE)");
+            db.exec("INSERT INTO JT VALUES (1, 2.5, 'x', 'ab', 1.5, NULL)");
+            let pj = cx.dir.join("types.json");
+            let ps = cx.dir.join("types.sql");
+            let json = db.db.save_json(&pj).ok().and_then(|_| std::fs::read_to_string(&pj).ok()).unwrap_or_default();
+            let sql = db.db.save_sql_dump(&ps).ok().and_then(|_| std::fs::read_to_string(&ps).ok()).unwrap_or_default();
+            for w in dict.iter().filter_map(|w| std::str::from_utf8(w).ok()) {
+                for ty in if args.quick() { &["NUMERIC", "VARCHAR"][..] } else { &["NUMERIC", "VARCHAR", "CHAR", "FLOAT", "TIMESTAMP WITH TIME ZONE"][..] } {
+                    let needle = format!("\"type\": \"{}\"", ty);
+                    if json.contains(&needle) {
+                        let esc: String = w.chars().map(|c| if c == '"' || c == '\\' || c.is_control() { ' ' } else { c }).collect();
+                        let j = json.replacen(&needle, &format!("\"type\": \"{}\"", esc), 1);
+                        other_case(&mut cx, &mut rep, "json", "json", "type_dictionary", j.as_bytes(), &format!("JSON column type {} replaced by {:?}", ty, w));
+                    }
+                }
+                for ty in if args.quick() { &["NUMERIC(10, 2)"][..] } else { &["NUMERIC(10, 2)", "VARCHAR(40)", "CHAR(6)"][..] } {
+                    if sql.contains(ty) {
+                        let q = sql.replacen(ty, w, 1);
+                        other_case(&mut cx, &mut rep, "sql", "sql", "type_dictionary", q.as_bytes(), &format!("SQL dump column type {} replaced by {:?}", ty, w));
+                    }
+                }
+            }
+        }
     }
     // ---- arbitrary byte strings --------------------------------------------------------------------
     for _ in 0..args.n(150, 20000) {
